@@ -145,8 +145,16 @@ EvidentOK(o, xs, fl) ==
   /\ (o \in {"mul2", "mul3"} =>
         /\ ((\E i \in DOMAIN xs : xs[i].c \in {"inf", "ninf"}) => \A j \in DOMAIN xs : fl[j].lf)
         /\ ((\E i \in DOMAIN xs : IsAny(xs[i])) => \A j \in DOMAIN xs : fl[j].lf \/ fl[j].s \/ fl[j].q))
-  \* Min(quantity, negative number) is evaluated by SymPy itself (quantities are positive symbols)
-  /\ (o \in {"min2", "max2"} => \A i, j \in DOMAIN xs : ~(fl[i].q /\ ~fl[j].q /\ ~fl[j].s /\ xs[j].c = "fin" /\ RSign(xs[j].v) < 0))
+  \* Min/Max of a quantity expression and a pure number of the other sign is evaluated by SymPy itself
+  \* (quantities are positive symbols), before inference sees the node
+  /\ (o \in {"min2", "max2"} => \A i, j \in DOMAIN xs :
+        ~(fl[i].q /\ ~fl[i].s /\ ~fl[j].q /\ ~fl[j].s /\ xs[i].c \in {"fin", "zero"} /\ xs[j].c \in {"fin", "zero"}
+          /\ RSign(xs[i].v) # RSign(xs[j].v)))
+  \* a refused sub-expression times a literal zero (or to the power zero) evaluates to a plain number for SymPy,
+  \* so the enclosing node never looks inside; a symbolic factor times its own inverse likewise
+  /\ (o \in {"mul2", "mul3"} => ~((\E i \in DOMAIN xs : xs[i].c = "err") /\ (\E j \in DOMAIN xs : xs[j].c = "zero")))
+  /\ (o = "pow" => ~(xs[1].c = "err" /\ xs[2].c = "zero"))
+  /\ (o = "mul2" => ~(fl[1].s /\ fl[2].s /\ xs[1].c = "fin" /\ xs[2].c = "fin" /\ RMul(xs[1].v, xs[2].v) = ROne))
   /\ (o = "pow" => /\ (IsAny(xs[2]) => fl[2].e)
                    /\ (IsAny(xs[1]) => ~fl[2].q)          \* 0 ** quantity, nan ** quantity: SymPy itself collapses it
                    /\ (fl[2].q => (fl[2].lf /\ ~IsAny(xs[2])) \/ PowRefused(xs[1], xs[2])))
